@@ -223,7 +223,8 @@ class logger( object ):
         if self.path is None:
             return
         try:
-            self._append( '# ' + s + '\n', encoding=encoding )
+            # every line of the text is a comment line (a bare one would be taken for a record)
+            self._append( '# ' + s.replace( '\n', '\n# ' ) + '\n', encoding=encoding )
         except:
             pass
 
